@@ -13,7 +13,7 @@ ID = "C27"
 LEVEL = "exploration"
 QUICK_RUNS = 60
 THOROUGH_SECONDS = 900
-CHUNK = 4
+CHUNK = 1
 MIN_BUDGET = 10
 RULE_TEXT = ("Generated deterministic workflows (fan-out, 1-3 workers per step, zero-delay retries, path-keyed idempotent state "
              "writes) run on the repository's DBOSRuntime (InternalDBOSAdapter with the journal-directed wait_for_next_task, "
@@ -34,7 +34,7 @@ ASSUMPTIONS = ["DBOS semantics as written in the emulator's contract (function i
                "a process stop loses exactly the uncommitted transactions"]
 EXPECTED_PROBES = ["stop-with-step-in-flight", "stop-with-journal-entries", "recovered", "replayed-step-output", "stop-after-last-commit"]
 LEVEL_TEXT = ("Seeded exploration of programs, schedules and process-stop points (quick: about 9 single stops and 3 double stops per program, "
-              "the second one inside or shortly after the recovery; thorough: a stop after every committed transaction); differential against "
+              "the second one inside or shortly after the recovery; thorough: a stop after every committed transaction of the run, up to 40, plus 12 double stops); differential against "
               "the uninterrupted run and against the prefix recorded by the stopped process. Runs on an EMULATED dbos package; programs have "
               "no scheduled wake-ups (retry delays are zero), see DESIGN 9.6.")
 LEVEL_NOTE = "Trusted: simulator loop, crash fence, and the dbos EMULATOR (checked by tools/selftest.py dbos). A violation here is a statement about the repository's code running on that contract."
@@ -331,9 +331,15 @@ def run(tape, thorough=False):
     if timers:
         agg["probes"]["program-with-retry-delay-timers"] = agg["probes"].get("program-with-retry-delay-timers", 0) + 1
     if thorough:
-        plans = [[k] for k in range(1, n + 1)]
+        # every committed transaction as a single stop point (capped at 40 evenly spread ones for very long runs), plus a spread of
+        # double stops; keeps one program's enumeration to ~10 s so that the time box is honoured
+        ks_all = list(range(1, n + 1))
+        if len(ks_all) > 40:
+            ks_all = sorted(set(ks_all[:: max(1, len(ks_all) // 40)] + [1, 2, n - 1, n]))
+        plans = [[k] for k in ks_all]
         if not timers:
-            plans += [[k, k2] for k in range(2, n + 1, 3) for k2 in (1, 2, 4, 7, 11)]
+            firsts = list(range(2, n + 1, max(3, n // 4)))[:4]
+            plans += [[k, k2] for k in firsts for k2 in (1, 3, 7)]
     elif timers:
         step = max(1, n // 9)
         ks = sorted(set([1, 2, n - 1, n] + list(range(step, n, step))))[:12]
